@@ -633,7 +633,7 @@ func (t *Task) BuildPropertyMap(bindMap channel.BindMap) (propMap controlcommand
 					var chanProps controlcommands.PropertyMap
 					chanProps, err = inbCh.ToFMQMap(t.localBindMap)
 					if err != nil {
-						continue
+						return nil, fmt.Errorf("task %s channel generation failed: %w", t.GetName(), err)
 					}
 
 					// And we copy it into the task's propertyMap
